@@ -52,8 +52,18 @@ pub struct StepBudgetExceeded {
 
 /// Runs `f` with the step counter armed; classifies how it ended. Returns ticks used.
 pub fn guarded<T>(fuel: u64, f: impl FnOnce() -> T) -> (Caught<T>, u64) {
+    guarded_with(fuel, false, f)
+}
+
+/// `abort_mode`: the code under test runs below an `extern "C"` frame, where exhaustion of the
+/// budget cannot unwind: the counter then writes `VERIF-FUEL-EXHAUSTED` to stderr and aborts.
+pub fn guarded_with<T>(fuel: u64, abort_mode: bool, f: impl FnOnce() -> T) -> (Caught<T>, u64) {
     LAST_PANIC.with(|p| *p.borrow_mut() = None);
-    verif_hooks::arm(fuel);
+    if abort_mode {
+        verif_hooks::arm_abort(fuel);
+    } else {
+        verif_hooks::arm(fuel);
+    }
     let r = catch_unwind(AssertUnwindSafe(f));
     let used = verif_hooks::disarm();
     match r {
@@ -253,8 +263,15 @@ pub fn canon_into(v: &Value, s: &mut String) {
         Value::Ref(r) => s.push_str(&format!("ref({:?},{:?})", r.value, r.dis)),
         Value::Uri(u) => s.push_str(&format!("uri({:?})", u.value)),
         Value::Symbol(x) => s.push_str(&format!("sym({:?})", x.value)),
-        Value::Date(d) => s.push_str(&format!("date({})", d)),
-        Value::Time(t) => s.push_str(&format!("time({})", t)),
+        // calendar fields read through chrono, not through the library's own Display (which is code under test)
+        Value::Date(d) => {
+            use chrono::Datelike;
+            s.push_str(&format!("date({}-{}-{})", d.year(), d.month(), d.day()))
+        }
+        Value::Time(t) => {
+            use chrono::Timelike;
+            s.push_str(&format!("time({}:{}:{}.{:09})", t.hour(), t.minute(), t.second(), t.nanosecond()))
+        }
         Value::DateTime(dt) => s.push_str(&format!(
             "dt({} tz={:?})",
             dt.to_rfc3339_opts(SecondsFormat::Nanos, false),
